@@ -323,4 +323,42 @@ theorem starSub_iff_supStar (d : Dict) (hn : NamesUnique d) (over k : Nat) : Sta
     | refl => exact StarG.refl
     | head h1 _ ih => exact StarG.tail ih ((mem_subsOf d hn _ _).mpr h1)
 
+theorem starBy_iff_supStar (d : Dict) (subs : Nat → List Nat) (hs : ∀ n s, s ∈ subs n ↔ n ∈ supsOf d s) (over k : Nat) :
+    StarG subs over k ↔ SupStar d k over := by
+  constructor
+  · intro h
+    induction h with
+    | refl => exact SupStar.refl
+    | head h1 _ ih => exact SupStar.tail ih ((hs _ _).mp h1)
+  · intro h
+    induction h with
+    | refl => exact StarG.refl
+    | head h1 _ ih => exact StarG.tail ih ((hs _ _).mpr h1)
+
+/-- `subtypesIterator` over any subtype lists that are the inverse of the supertype lists reaches exactly the entities below -/
+theorem candBy_iff (d : Dict) (rank : Nat → Nat) (h : Ranked d rank) (subs : Nat → List Nat)
+    (hs : ∀ n s, s ∈ subs n ↔ n ∈ supsOf d s) (over k : Nat) :
+    k ∈ candEntitiesBy subs (d.length + 1) over ↔ SupStar d k over := by
+  rw [← starBy_iff_supStar d subs hs]
+  have hr' : ∀ n s, s ∈ subs n → (fun m => d.length - rank m) s < (fun m => d.length - rank m) n := by
+    intro n s hs'
+    have h1 := h.sups s n ((hs n s).mp hs')
+    have h2 := h.2 s
+    simp only; omega
+  unfold candEntitiesBy
+  constructor
+  · intro hk
+    rcases List.mem_cons.mp hk with h1 | h1
+    · rw [h1]; exact StarG.refl
+    · obtain ⟨y, hy, hs'⟩ := levelsG_sound subs _ _ k h1
+      exact StarG.head hy hs'
+  · intro hs'
+    cases hs' with
+    | refl => simp
+    | head h1 h2 =>
+      rename_i s
+      refine List.mem_cons_of_mem _ ?_
+      exact levelsG_complete subs (fun m => d.length - rank m) hr' _ _
+        (fun y _ => by omega) s h1 k h2
+
 end StepModel.LazyRefs
